@@ -115,6 +115,6 @@ PROPERTY = dict(
                 modes='5 records on 2 contigs (informative, missing genotype, monomorphic, multi-base) (+1 contig absent from the VCF); eager, lazy, cache first run, cache second run; both values of lazyLoad with use_cache; every access order of 3 contig visits incl. returning to an evicted contig'),
     outside=['htslib VCF parsing and index', 'the "ugly mode" text parser', 'region_start / region_end', 'getAllele over reads',
              'a cache directory shared between runs with different phased / ignore_conversions / region options (the cache file name encodes only contig and sample selection)'],
-    assumptions=['pysam.VariantFile / gzip / os inside alleleTools replaced by stubs/fakevcf.py', 'a site with a missing genotype is usable with the bases that were seen (pinned behaviour)'],
+    assumptions=['pysam.VariantFile / gzip / os inside alleleTools replaced by stubs/fakevcf.py', 'a single-nucleotide site with a missing genotype is usable with the bases that were seen (pinned behaviour); a multi-base allele always disqualifies the site'],
     trusted=['stubs/fakevcf.py', 'spec/c18.py'],
 )
